@@ -136,7 +136,7 @@ func (p *Program) genVC(con *Contract, sorts map[string]string) (vc *VC, err err
 			vc.oblige(&Obligation{Name: fc.uniq(fmt.Sprintf("%s/post[%s]@%s", shortName(fn), clauseLabel(e, i), site)), Kind: "post", Props: e.Tags, Func: shortName(fn),
 				Guard: ex.state.reach, Goal: t, Desc: e.Src})
 		}
-		if !con.ModAll {
+		if !con.ModAll && !con.ModHeap {
 			for _, comp := range sortedKeys(ex.state.heap) {
 				if comp == "alloc" {
 					continue
